@@ -1,0 +1,381 @@
+//go:build verif
+// +build verif
+
+package multicastsetup
+
+// Client lemmas for /verif (tool: gov), property C18; never called by library code.
+// Each lemma is verified with the real encoder / decoder bodies inlined: for EVERY value whose
+// fields lie within the bit widths of the package specification the encoder accepts it without
+// panicking, produces exactly Size() bytes, and the decoder returns an equal value.
+func verifAssert(cond bool, label string) {}
+func verifAssume(cond bool)               {}
+
+func lemmaC18_roundtrip_PackageVersionAnsPayload(v PackageVersionAnsPayload) {
+	b, err := v.MarshalBinary()
+	verifAssert(err == nil, "accepted")
+	if err != nil {
+		return
+	}
+	verifAssert(len(b) == v.Size(), "size")
+	var w PackageVersionAnsPayload
+	err2 := w.UnmarshalBinary(b)
+	verifAssert(err2 == nil, "decodes")
+	verifAssert(w == v, "equal")
+}
+
+func lemmaC18_roundtrip_McGroupStatusReqPayload(v McGroupStatusReqPayload) {
+	b, err := v.MarshalBinary()
+	verifAssert(err == nil, "accepted")
+	if err != nil {
+		return
+	}
+	verifAssert(len(b) == v.Size(), "size")
+	var w McGroupStatusReqPayload
+	err2 := w.UnmarshalBinary(b)
+	verifAssert(err2 == nil, "decodes")
+	verifAssert(w == v, "equal")
+}
+
+func lemmaC18_roundtrip_McGroupSetupReqPayload(v McGroupSetupReqPayload) {
+	verifAssume(v.McGroupIDHeader.McGroupID <= 3)
+	b, err := v.MarshalBinary()
+	verifAssert(err == nil, "accepted")
+	if err != nil {
+		return
+	}
+	verifAssert(len(b) == v.Size(), "size")
+	var w McGroupSetupReqPayload
+	err2 := w.UnmarshalBinary(b)
+	verifAssert(err2 == nil, "decodes")
+	verifAssert(w == v, "equal")
+}
+
+func lemmaC18_roundtrip_McGroupSetupAnsPayload(v McGroupSetupAnsPayload) {
+	verifAssume(v.McGroupIDHeader.McGroupID <= 3)
+	b, err := v.MarshalBinary()
+	verifAssert(err == nil, "accepted")
+	if err != nil {
+		return
+	}
+	verifAssert(len(b) == v.Size(), "size")
+	var w McGroupSetupAnsPayload
+	err2 := w.UnmarshalBinary(b)
+	verifAssert(err2 == nil, "decodes")
+	verifAssert(w == v, "equal")
+}
+
+func lemmaC18_roundtrip_McGroupDeleteReqPayload(v McGroupDeleteReqPayload) {
+	verifAssume(v.McGroupIDHeader.McGroupID <= 3)
+	b, err := v.MarshalBinary()
+	verifAssert(err == nil, "accepted")
+	if err != nil {
+		return
+	}
+	verifAssert(len(b) == v.Size(), "size")
+	var w McGroupDeleteReqPayload
+	err2 := w.UnmarshalBinary(b)
+	verifAssert(err2 == nil, "decodes")
+	verifAssert(w == v, "equal")
+}
+
+func lemmaC18_roundtrip_McGroupDeleteAnsPayload(v McGroupDeleteAnsPayload) {
+	verifAssume(v.McGroupIDHeader.McGroupID <= 3)
+	b, err := v.MarshalBinary()
+	verifAssert(err == nil, "accepted")
+	if err != nil {
+		return
+	}
+	verifAssert(len(b) == v.Size(), "size")
+	var w McGroupDeleteAnsPayload
+	err2 := w.UnmarshalBinary(b)
+	verifAssert(err2 == nil, "decodes")
+	verifAssert(w == v, "equal")
+}
+
+func lemmaC18_roundtrip_McClassCSessionReqPayload(v McClassCSessionReqPayload) {
+	verifAssume(v.McGroupIDHeader.McGroupID <= 3 && v.SessionTimeOut.TimeOut <= 15 && v.DLFrequency%100 == 0 && v.DLFrequency/100 < 1<<24)
+	b, err := v.MarshalBinary()
+	verifAssert(err == nil, "accepted")
+	if err != nil {
+		return
+	}
+	verifAssert(len(b) == v.Size(), "size")
+	var w McClassCSessionReqPayload
+	err2 := w.UnmarshalBinary(b)
+	verifAssert(err2 == nil, "decodes")
+	verifAssert(w == v, "equal")
+}
+
+func lemmaC18_roundtrip_McClassBSessionReqPayload(v McClassBSessionReqPayload) {
+	verifAssume(v.McGroupIDHeader.McGroupID <= 3 && v.TimeOutPeriodicity.TimeOut <= 15 && v.TimeOutPeriodicity.Periodicity <= 7 && v.DLFrequency%100 == 0 && v.DLFrequency/100 < 1<<24)
+	b, err := v.MarshalBinary()
+	verifAssert(err == nil, "accepted")
+	if err != nil {
+		return
+	}
+	verifAssert(len(b) == v.Size(), "size")
+	var w McClassBSessionReqPayload
+	err2 := w.UnmarshalBinary(b)
+	verifAssert(err2 == nil, "decodes")
+	verifAssert(w == v, "equal")
+}
+
+// McClassC/BSessionAns: TimeToStart (24 bit) is present exactly when no error flag is set
+func lemmaC18_roundtrip_McClassCSessionAnsPayload(v McClassCSessionAnsPayload) {
+	s := v.StatusAndMcGroupID
+	hasErr := s.McGroupUndefined || s.FreqError || s.DRError
+	verifAssume(s.McGroupID <= 3)
+	verifAssume((hasErr && v.TimeToStart == nil) || (!hasErr && v.TimeToStart != nil && *v.TimeToStart < 1<<24))
+	b, err := v.MarshalBinary()
+	verifAssert(err == nil, "accepted")
+	if err != nil {
+		return
+	}
+	verifAssert(len(b) == v.Size(), "size")
+	var w McClassCSessionAnsPayload
+	err2 := w.UnmarshalBinary(b)
+	verifAssert(err2 == nil, "decodes")
+	verifAssert(w.StatusAndMcGroupID == v.StatusAndMcGroupID, "equal-status")
+	verifAssert((w.TimeToStart == nil) == (v.TimeToStart == nil), "equal-presence")
+	if w.TimeToStart != nil && v.TimeToStart != nil {
+		verifAssert(*w.TimeToStart == *v.TimeToStart, "equal-time")
+	}
+}
+
+func lemmaC18_roundtrip_McClassBSessionAnsPayload(v McClassBSessionAnsPayload) {
+	s := v.StatusAndMcGroupID
+	hasErr := s.McGroupUndefined || s.FreqError || s.DRError
+	verifAssume(s.McGroupID <= 3)
+	verifAssume((hasErr && v.TimeToStart == nil) || (!hasErr && v.TimeToStart != nil && *v.TimeToStart < 1<<24))
+	b, err := v.MarshalBinary()
+	verifAssert(err == nil, "accepted")
+	if err != nil {
+		return
+	}
+	verifAssert(len(b) == v.Size(), "size")
+	var w McClassBSessionAnsPayload
+	err2 := w.UnmarshalBinary(b)
+	verifAssert(err2 == nil, "decodes")
+	verifAssert(w.StatusAndMcGroupID == v.StatusAndMcGroupID, "equal-status")
+	verifAssert((w.TimeToStart == nil) == (v.TimeToStart == nil), "equal-presence")
+	if w.TimeToStart != nil && v.TimeToStart != nil {
+		verifAssert(*w.TimeToStart == *v.TimeToStart, "equal-time")
+	}
+}
+
+// McGroupStatusAns: one 5-byte item per bit set in AnsGroupMask (at most 4)
+func lemmaC18_roundtrip_McGroupStatusAnsPayload(v McGroupStatusAnsPayload) {
+	n := 0
+	for _, m := range v.Status.AnsGroupMask {
+		if m {
+			n++
+		}
+	}
+	verifAssume(v.Status.NbTotalGroups <= 7 && len(v.Items) == n)
+	for i := range v.Items {
+		verifAssume(v.Items[i].McGroupID <= 3)
+	}
+	b, err := v.MarshalBinary()
+	verifAssert(err == nil, "accepted")
+	if err != nil {
+		return
+	}
+	verifAssert(len(b) == v.Size(), "size")
+	var w McGroupStatusAnsPayload
+	err2 := w.UnmarshalBinary(b)
+	verifAssert(err2 == nil, "decodes")
+	verifAssert(w.Status == v.Status, "equal-status")
+	verifAssert(len(w.Items) == len(v.Items), "equal-count")
+	if len(w.Items) == len(v.Items) {
+		for i := range v.Items {
+			verifAssert(w.Items[i] == v.Items[i], "equal-item")
+		}
+	}
+}
+
+// ---------------------------------------------------------------------------
+// Command streams (bounded: sequences of length 2): a command carrying a payload followed by a
+// command without payload in that direction decodes to exactly these two commands.
+// ---------------------------------------------------------------------------
+
+func lemmaC18_stream_PackageVersionAnsPayload(v PackageVersionAnsPayload) {
+	cmds := Commands{{CID: PackageVersionAns, Payload: &v}, {CID: CID(0x7f)}}
+	b, err := cmds.MarshalBinary()
+	verifAssert(err == nil, "accepted")
+	if err != nil {
+		return
+	}
+	var out Commands
+	err2 := out.UnmarshalBinary(true, b)
+	verifAssert(err2 == nil, "decodes")
+	if err2 != nil {
+		return
+	}
+	verifAssert(len(out) == 2, "count")
+	if len(out) != 2 {
+		return
+	}
+	verifAssert(out[0].CID == PackageVersionAns && out[1].CID == CID(0x7f) && out[1].Payload == nil, "framing")
+	w, ok := out[0].Payload.(*PackageVersionAnsPayload)
+	verifAssert(ok && *w == v, "first")
+}
+
+func lemmaC18_stream_McGroupStatusReqPayload(v McGroupStatusReqPayload) {
+	cmds := Commands{{CID: McGroupStatusReq, Payload: &v}, {CID: PackageVersionReq}}
+	b, err := cmds.MarshalBinary()
+	verifAssert(err == nil, "accepted")
+	if err != nil {
+		return
+	}
+	var out Commands
+	err2 := out.UnmarshalBinary(false, b)
+	verifAssert(err2 == nil, "decodes")
+	if err2 != nil {
+		return
+	}
+	verifAssert(len(out) == 2, "count")
+	if len(out) != 2 {
+		return
+	}
+	verifAssert(out[0].CID == McGroupStatusReq && out[1].CID == PackageVersionReq && out[1].Payload == nil, "framing")
+	w, ok := out[0].Payload.(*McGroupStatusReqPayload)
+	verifAssert(ok && *w == v, "first")
+}
+
+func lemmaC18_stream_McGroupSetupReqPayload(v McGroupSetupReqPayload) {
+	verifAssume(v.McGroupIDHeader.McGroupID <= 3)
+	cmds := Commands{{CID: McGroupSetupReq, Payload: &v}, {CID: PackageVersionReq}}
+	b, err := cmds.MarshalBinary()
+	verifAssert(err == nil, "accepted")
+	if err != nil {
+		return
+	}
+	var out Commands
+	err2 := out.UnmarshalBinary(false, b)
+	verifAssert(err2 == nil, "decodes")
+	if err2 != nil {
+		return
+	}
+	verifAssert(len(out) == 2, "count")
+	if len(out) != 2 {
+		return
+	}
+	verifAssert(out[0].CID == McGroupSetupReq && out[1].CID == PackageVersionReq && out[1].Payload == nil, "framing")
+	w, ok := out[0].Payload.(*McGroupSetupReqPayload)
+	verifAssert(ok && *w == v, "first")
+}
+
+func lemmaC18_stream_McGroupSetupAnsPayload(v McGroupSetupAnsPayload) {
+	verifAssume(v.McGroupIDHeader.McGroupID <= 3)
+	cmds := Commands{{CID: McGroupSetupAns, Payload: &v}, {CID: CID(0x7f)}}
+	b, err := cmds.MarshalBinary()
+	verifAssert(err == nil, "accepted")
+	if err != nil {
+		return
+	}
+	var out Commands
+	err2 := out.UnmarshalBinary(true, b)
+	verifAssert(err2 == nil, "decodes")
+	if err2 != nil {
+		return
+	}
+	verifAssert(len(out) == 2, "count")
+	if len(out) != 2 {
+		return
+	}
+	verifAssert(out[0].CID == McGroupSetupAns && out[1].CID == CID(0x7f) && out[1].Payload == nil, "framing")
+	w, ok := out[0].Payload.(*McGroupSetupAnsPayload)
+	verifAssert(ok && *w == v, "first")
+}
+
+func lemmaC18_stream_McGroupDeleteReqPayload(v McGroupDeleteReqPayload) {
+	verifAssume(v.McGroupIDHeader.McGroupID <= 3)
+	cmds := Commands{{CID: McGroupDeleteReq, Payload: &v}, {CID: PackageVersionReq}}
+	b, err := cmds.MarshalBinary()
+	verifAssert(err == nil, "accepted")
+	if err != nil {
+		return
+	}
+	var out Commands
+	err2 := out.UnmarshalBinary(false, b)
+	verifAssert(err2 == nil, "decodes")
+	if err2 != nil {
+		return
+	}
+	verifAssert(len(out) == 2, "count")
+	if len(out) != 2 {
+		return
+	}
+	verifAssert(out[0].CID == McGroupDeleteReq && out[1].CID == PackageVersionReq && out[1].Payload == nil, "framing")
+	w, ok := out[0].Payload.(*McGroupDeleteReqPayload)
+	verifAssert(ok && *w == v, "first")
+}
+
+func lemmaC18_stream_McGroupDeleteAnsPayload(v McGroupDeleteAnsPayload) {
+	verifAssume(v.McGroupIDHeader.McGroupID <= 3)
+	cmds := Commands{{CID: McGroupDeleteAns, Payload: &v}, {CID: CID(0x7f)}}
+	b, err := cmds.MarshalBinary()
+	verifAssert(err == nil, "accepted")
+	if err != nil {
+		return
+	}
+	var out Commands
+	err2 := out.UnmarshalBinary(true, b)
+	verifAssert(err2 == nil, "decodes")
+	if err2 != nil {
+		return
+	}
+	verifAssert(len(out) == 2, "count")
+	if len(out) != 2 {
+		return
+	}
+	verifAssert(out[0].CID == McGroupDeleteAns && out[1].CID == CID(0x7f) && out[1].Payload == nil, "framing")
+	w, ok := out[0].Payload.(*McGroupDeleteAnsPayload)
+	verifAssert(ok && *w == v, "first")
+}
+
+func lemmaC18_stream_McClassCSessionReqPayload(v McClassCSessionReqPayload) {
+	verifAssume(v.McGroupIDHeader.McGroupID <= 3 && v.SessionTimeOut.TimeOut <= 15 && v.DLFrequency%100 == 0 && v.DLFrequency/100 < 1<<24)
+	cmds := Commands{{CID: McClassCSessionReq, Payload: &v}, {CID: PackageVersionReq}}
+	b, err := cmds.MarshalBinary()
+	verifAssert(err == nil, "accepted")
+	if err != nil {
+		return
+	}
+	var out Commands
+	err2 := out.UnmarshalBinary(false, b)
+	verifAssert(err2 == nil, "decodes")
+	if err2 != nil {
+		return
+	}
+	verifAssert(len(out) == 2, "count")
+	if len(out) != 2 {
+		return
+	}
+	verifAssert(out[0].CID == McClassCSessionReq && out[1].CID == PackageVersionReq && out[1].Payload == nil, "framing")
+	w, ok := out[0].Payload.(*McClassCSessionReqPayload)
+	verifAssert(ok && *w == v, "first")
+}
+
+func lemmaC18_stream_McClassBSessionReqPayload(v McClassBSessionReqPayload) {
+	verifAssume(v.McGroupIDHeader.McGroupID <= 3 && v.TimeOutPeriodicity.TimeOut <= 15 && v.TimeOutPeriodicity.Periodicity <= 7 && v.DLFrequency%100 == 0 && v.DLFrequency/100 < 1<<24)
+	cmds := Commands{{CID: McClassBSessionReq, Payload: &v}, {CID: PackageVersionReq}}
+	b, err := cmds.MarshalBinary()
+	verifAssert(err == nil, "accepted")
+	if err != nil {
+		return
+	}
+	var out Commands
+	err2 := out.UnmarshalBinary(false, b)
+	verifAssert(err2 == nil, "decodes")
+	if err2 != nil {
+		return
+	}
+	verifAssert(len(out) == 2, "count")
+	if len(out) != 2 {
+		return
+	}
+	verifAssert(out[0].CID == McClassBSessionReq && out[1].CID == PackageVersionReq && out[1].Payload == nil, "framing")
+	w, ok := out[0].Payload.(*McClassBSessionReqPayload)
+	verifAssert(ok && *w == v, "first")
+}
